@@ -8,6 +8,7 @@ import (
 
 	"github.com/polynetwork/poly/common"
 	"github.com/polynetwork/poly/common/config"
+	"github.com/polynetwork/poly/core/payload"
 	ct "github.com/polynetwork/poly/core/types"
 	pc "github.com/polynetwork/poly/p2pserver/common"
 	mt "github.com/polynetwork/poly/p2pserver/message/types"
@@ -17,6 +18,8 @@ import (
 // Family p2p (C05): WriteMessage / ReadMessage and the 16 payload kinds on the real code.
 //
 //	rd <magic> <stream> <keys>     ReadMessage with NetworkMagic = <magic>: "ok <kind> <V> len=<payload> rest=<unread>" | "err:<class>" | "panic"
+//	hold <magic> <f1> <f2> <f3> <keys>   the message decoded from f1 is kept while f2 (same reader) and f3 (another reader) are read, then compared
+//	bigframe <magic> <version|tx> <payloadLen> <seed>   large frames: Checksum vs reference, corruption at block boundaries / in the tail
 //	prop <magic> <frame> <keys>    property of a frame produced by WriteMessage: reads back, re-writes to the same bytes,
 //	                               every examined single-byte corruption (3 masks) and truncation is refused: "ok <kind>"
 type p2pFam struct {
@@ -175,7 +178,10 @@ func writeFrame(magic uint32, m mt.Message) []byte {
 func (f *p2pFam) Exec(r *hx.Run, op []string) string {
 	var magic uint32
 	fmt.Sscan(op[1], &magic)
-	data := hx.UnHex(op[2])
+	var data []byte
+	if op[0] == "rd" || op[0] == "prop" {
+		data = hx.UnHex(op[2])
+	}
 	switch op[0] {
 	case "rd":
 		m, plen, rest, res := f.read(r, magic, data)
@@ -198,6 +204,10 @@ func (f *p2pFam) Exec(r *hx.Run, op []string) string {
 			}
 		}
 		return fmt.Sprintf("ok %s %s len=%d rest=%d", kind, v, plen, rest)
+	case "hold":
+		return f.holdOp(r, magic, op)
+	case "bigframe":
+		return f.bigFrameOp(r, magic, op)
 	case "prop":
 		m, plen, rest, res := f.read(r, magic, data)
 		if res != "ok" {
@@ -248,6 +258,128 @@ func (f *p2pFam) Exec(r *hx.Run, op []string) string {
 		return "ok " + kind
 	}
 	return "bad-op"
+}
+
+// holdOp: hold <magic> <frame1> <frame2> <frame3> <keys>. frame1 and frame2 are read from one reader, frame3 from another;
+// the message decoded from frame1 is kept and, after the later reads, must still render to the same value and re-frame
+// to frame1 (a delivered message must not share a buffer that later reads reuse). Outcome "ok <kind>".
+func (f *p2pFam) holdOp(r *hx.Run, magic uint32, op []string) string {
+	if len(op) != 6 {
+		return "bad-op"
+	}
+	f1, f2, f3 := hx.UnHex(op[2]), hx.UnHex(op[3]), hx.UnHex(op[4])
+	config.DefConfig.P2PNode.NetworkMagic = magic
+	res, pm := guarded(func() string {
+		rd := bytes.NewReader(append(append([]byte{}, f1...), f2...))
+		m1, _, err := mt.ReadMessage(rd)
+		if err != nil {
+			return "err"
+		}
+		kind, before := renderMsg(m1)
+		mt.ReadMessage(rd)
+		mt.ReadMessage(bytes.NewReader(f3))
+		mt.ReadMessage(bytes.NewReader(f2))
+		_, after := renderMsg(m1)
+		re := writeFrame(magic, m1)
+		if after != before || !bytes.Equal(re, f1) {
+			r.Viol("C05:decoded-message-changed-after-later-read:"+kind, fmt.Sprintf("the %s message decoded from frame 1 rendered %s; after two further frames were read it renders %s and re-frames to %s (frame 1 %s)",
+				kind, trunc(before, 160), trunc(after, 160), trunc(hx.Hex(re), 120), trunc(hx.Hex(f1), 120)))
+			return "FAIL:changed " + kind
+		}
+		return "ok " + kind
+	})
+	if res == "panic" {
+		r.Viol("C05:read-panic:hold:"+panicSite(pm), "hold panics: "+pm)
+	}
+	return res
+}
+
+// bigPattern: the deterministic filler of the large-frame op (same formula in the Lean driver).
+func bigPattern(n int, seed int) []byte {
+	b := make([]byte, n)
+	for i := range b {
+		b[i] = byte((seed + i) % 251)
+	}
+	return b
+}
+
+// bigFrameOp: bigframe <magic> <version|tx> <payloadLen> <seed>. A message whose payload has exactly payloadLen bytes (a long
+// SoftVersion / contract code filled with a fixed pattern) is framed; common.Checksum must equal the reference double SHA-256
+// prefix, the frame must read back, and single-byte corruptions of the payload (first byte, offsets 262143 / 262144, the last
+// 1 / 2 / 100 bytes) must be refused unless the reference checksum really collides. Outcome "ok <kind> len=<n> sum=<checksum>".
+func (f *p2pFam) bigFrameOp(r *hx.Run, magic uint32, op []string) string {
+	if len(op) != 5 {
+		return "bad-op"
+	}
+	var target, seed int
+	fmt.Sscan(op[3], &target)
+	fmt.Sscan(op[4], &seed)
+	var m mt.Message
+	switch op[2] {
+	case "version":
+		n := target - 81
+		if n < 0x10000 {
+			return "bad-op"
+		}
+		v := &mt.Version{}
+		v.P.Version, v.P.Nonce, v.P.IsConsensus = uint32(seed), uint64(seed), seed%2 == 1
+		v.P.SoftVersion = string(bigPattern(n, seed))
+		m = v
+	case "tx":
+		n := target - 58
+		if n < 0x10000 {
+			return "bad-op"
+		}
+		tx := &ct.Transaction{TxType: ct.Invoke, Nonce: uint32(seed), Payload: &payload.InvokeCode{Code: bigPattern(n, seed)}}
+		t, err := decodeTx(serTx(tx))
+		if err != nil {
+			r.Viol("C05:valid-tx-rejected", "large transaction rejected: "+err.Error())
+			return "FAIL:tx"
+		}
+		m = &mt.Trn{Txn: t}
+	default:
+		return "bad-op"
+	}
+	frame := writeFrame(magic, m)
+	pl := frame[24:]
+	var fails []string
+	fail := func(k, d string) { fails = append(fails, k); r.Viol("C05:"+k+":"+op[2], d) }
+	if len(pl) != target {
+		return fmt.Sprintf("bad-op:len=%d", len(pl))
+	}
+	ref := dsha256(pl)[:4]
+	if cs := pc.Checksum(pl); !bytes.Equal(cs[:], ref) {
+		fail("checksum-differs-from-reference", fmt.Sprintf("common.Checksum of the %d-byte payload is %x, first four bytes of the double SHA-256 are %x", len(pl), cs[:], ref))
+	}
+	if !bytes.Equal(frame[20:24], ref) {
+		fail("frame-checksum-differs-from-reference", fmt.Sprintf("WriteMessage stored checksum %x for a %d-byte payload, reference %x", frame[20:24], len(pl), ref))
+	}
+	if _, _, _, res := f.read(r, magic, frame); res != "ok" {
+		fail("valid-frame-rejected", fmt.Sprintf("a %d-byte %s frame is not read back: %s", len(frame), op[2], res))
+	}
+	for _, off := range bigOffsets(len(pl)) {
+		c := append([]byte{}, frame...)
+		c[24+off] ^= 0x01
+		if _, _, _, res := f.read(r, magic, c); res == "ok" && !bytes.Equal(dsha256(c[24:])[:4], ref) {
+			fail("corruption-accepted", fmt.Sprintf("%s frame with a %d-byte payload: payload byte %d flipped and the frame is still accepted (reference checksum of the corrupted payload %x, header %x)",
+				op[2], len(pl), off, dsha256(c[24:])[:4], ref))
+			break
+		}
+	}
+	if len(fails) > 0 {
+		return "FAIL:" + strings.Join(fails, ",")
+	}
+	return fmt.Sprintf("ok %s len=%d sum=%s", op[2], len(pl), hx.Hex(ref))
+}
+
+func bigOffsets(n int) []int {
+	var offs []int
+	for _, o := range []int{0, 262143, 262144, n - 100, n - 2, n - 1} {
+		if o >= 0 && o < n {
+			offs = append(offs, o)
+		}
+	}
+	return offs
 }
 
 // ---------------------------------------------------------------------------------------------- generator
@@ -453,6 +585,67 @@ func (f *p2pFam) Gen(r *hx.Run) {
 				out := rd(magic, reframe(magic, kind, mp))
 				r.Nontrivial(fmt.Sprintf("%s-mut/%s/%d", kind, outClass(out), lenBucket(len(mp))))
 			}
+		}
+	}
+	// 2b. a decoded message is kept while further frames are read (same reader and another reader), then compared
+	fat := func() []byte { // a frame with a payload of a few hundred bytes to some KiB
+		switch r.Rng.Intn(4) {
+		case 0:
+			v := f.genMsg(r, "version").(*mt.Version)
+			v.P.SoftVersion = string(r.Rng.Bytes(200 + r.Rng.Intn(3000)))
+			return writeFrame(magics[0], v)
+		case 1:
+			iv := &mt.Inv{}
+			for i := 0; i < 64; i++ {
+				var u common.Uint256
+				copy(u[:], r.Rng.Bytes(32))
+				iv.P.Blk = append(iv.P.Blk, u)
+			}
+			return writeFrame(magics[0], iv)
+		case 2:
+			b := &mt.BlkHeader{}
+			for i := 0; i < 3+r.Rng.Intn(4); i++ {
+				b.BlkHdr = append(b.BlkHdr, f.led.genHeader(r))
+			}
+			return writeFrame(magics[0], b)
+		default:
+			a := &mt.Addr{}
+			for i := 0; i < 64; i++ {
+				pa := pc.PeerAddr{Time: int64(r.Rng.U64()), ID: r.Rng.U64()}
+				copy(pa.IpAddr[:], r.Rng.Bytes(16))
+				a.NodeAddrs = append(a.NodeAddrs, pa)
+			}
+			return writeFrame(magics[0], a)
+		}
+	}
+	for _, kind := range p2pKinds {
+		for i := 0; i < r.Pick(3, 60); i++ {
+			newCase("hold-" + kind)
+			m := f.genMsg(r, kind)
+			if m == nil {
+				continue
+			}
+			if h, ok := m.(*mt.BlkHeader); ok && len(h.BlkHdr) == 0 {
+				h.BlkHdr = append(h.BlkHdr, f.led.genHeader(r), f.led.genHeader(r))
+			}
+			f1, f2, f3 := writeFrame(magics[0], m), fat(), fat()
+			out := r.Do(fmt.Sprintf("hold %d %s %s %s %s", magics[0], hx.Hex(f1), hx.Hex(f2), hx.Hex(f3), keyOracle(f1)))
+			r.Nontrivial(fmt.Sprintf("hold/%s/%s", kind, outClass(out)))
+		}
+	}
+	// 2c. large frames: payloads around and beyond 256 KiB
+	sizes := []int{262143, 262144, 262145, 300000, 600001}
+	if r.Thorough() {
+		sizes = append(sizes, 131072, 524287, 524288, 524289, 786433, 1000000)
+	}
+	for si, n := range sizes {
+		kind := []string{"version", "tx"}[si%2]
+		newCase("bigframe")
+		r.Do(fmt.Sprintf("bigframe %d %s %d %d", magics[0], kind, n, r.Rng.Intn(250)))
+		r.Nontrivial(fmt.Sprintf("bigframe/%s/%d", kind, n))
+		if r.Thorough() || n == 262145 {
+			newCase("bigframe")
+			r.Do(fmt.Sprintf("bigframe %d %s %d %d", magics[0], []string{"tx", "version"}[si%2], n, r.Rng.Intn(250)))
 		}
 	}
 	// 3. garbage streams
